@@ -151,3 +151,19 @@ package keeper
 //@   flag havoc=SetOperatorPubKey
 //@   before[C20.rbpk.verified] SetOperatorPubKey requires res_VerifySignature_0 && res_VerifySignature_1 == nil && !res_IsExistPubKey_0 &&
 //@        arg_pub.Operator == params.Operator && arg_pub.PubKey == params.PubKey
+
+// ---------------------------------------------------------------------------------------------
+// C20 (an operator's phase-one commitment for a task is accepted once): the "already submitted" question is answered
+// from the collection the results are written to, under the result's own key.
+//@ func (*Keeper).IsExistTaskResultInfo
+//@   flag pure=FormatUint
+//@   ensures[C20.ietri.key] r0 == (get(ctx, "avs", cat(g("x/avs/types.KeyPrefixTaskResult"), join(operatorAddress, taskContractAddress, res_FormatUint_0))) != nil)
+
+// C20 / C10 (a result is recorded for an operator only when that operator sent the message): the keeper is given the
+// MESSAGE SENDER as the submitting address, which it compares with the operator the result is attributed to.
+//@ func (MsgServerImpl).SubmitTaskResult
+//@   requires req != nil && req.Info != nil
+//@   flag noframe
+//@   flag pure=UnwrapSDKContext
+//@   flag havoc=SetTaskResultInfo
+//@   before[C20.msg.str.sender,C10.msg.str.sender] SetTaskResultInfo requires arg_addr == req.FromAddress && arg_info == req.Info
